@@ -767,7 +767,10 @@ impl<'a> Sim<'a> {
         let leaders: Vec<u64> = (0..self.plan.nodes).filter(|i| self.nodes[*i as usize].verif_is_leader()).collect();
         if leaders.is_empty() && self.plan.horizon_ms > 0 {
             let max_term = (0..self.plan.nodes as usize).map(|i| self.nodes[i].verif_term()).max().unwrap_or(0);
-            if max_term >= self.term_at_end_of_faults + 15 {
+            // "keep advancing": at least a quarter of the term timeouts that fit into the settle window ended in a new
+            // term (a fixed count of 15 was one short for a configuration with a 6 s term timeout: false alarm, seed 3)
+            let advancing = (self.plan.settle_ms / self.plan.term_ms.max(1) / 4).max(3);
+            if max_term >= self.term_at_end_of_faults + advancing {
                 // G11: from a post-partition state the fixed, staggered election timeouts (never randomised) make the
                 // same nodes collide as candidates term after term: candidates answer LeaderMismatch / TermMismatch to
                 // each other's vote requests and the terms keep advancing without a winner
